@@ -31,7 +31,8 @@ def default_port_spec(scheme):
 def authority_spec(vc, scheme, host, port):
     """RFC 3986 §3.2 authority for (host, port) under `scheme`: IPv6 literals (the only hosts containing ':') in brackets, the
     port elided iff it is the scheme's default.  host is text; scheme concrete."""
-    h = If(contains(host, ":"), "[" + host + "]", host)
+    # an IPv6 literal is stored without brackets; a host text that already carries its bracket is left alone
+    h = If(And(contains(host, ":"), Not(startswith(host, "["))), "[" + host + "]", host)
     d = default_port_spec(scheme)
     if d is None:
         return h + ":" + itos(vc, port)
@@ -106,7 +107,7 @@ def s_hostport(vc):
         return
     exp = authority_spec(vc, scheme, host, port)
     got = out.result
-    vc.ensure_kf("is_rfc3986_authority", got == (exp if kind == "str" else as_bytes(vc, exp)), KF1, contains(host, ":"))
+    vc.ensure("is_rfc3986_authority", got == (exp if kind == "str" else as_bytes(vc, exp)))  # was recorded finding KF-C33-1, repaired in /repo (see known_findings.d)
     # independent of the bracket clause (holds for every host): the host text is kept and the port is elided iff it is the default
     d = default_port_spec(scheme)
     conv = (lambda x: x) if kind == "str" else (lambda x: as_bytes(vc, x))
@@ -130,7 +131,7 @@ def s_unparse(vc):
     if not out.ok:
         return
     exp = scheme + "://" + authority_spec(vc, scheme, host, port) + path
-    vc.ensure_kf("scheme_authority_path", out.result == conv(exp), KF1, contains(host, ":"))
+    vc.ensure("scheme_authority_path", out.result == conv(exp))  # was recorded finding KF-C33-1, repaired in /repo (see known_findings.d)
 
 
 # ---------------------------------------------------------------------------------------------------------------
@@ -185,7 +186,7 @@ def check_host_and_authority(vc, tag, data, hdrs, names, vals, scheme, host, por
                 place = Implies(c, And(*[Implies(before == j, items_of(post[j])[0] == item[0]) for j in range(len(post))])) if post else Not(c)
                 value = Implies(And(c, ascii_host), And(*[Implies(before == j, items_of(post[j])[1] == item[1]) for j in range(len(post))])) if post else Not(c)
                 vc.ensure(f"{tag}.host_header_kept_in_place[{i}]", place)
-                vc.ensure_kf(f"{tag}.host_header_is_new_authority[{i}]", value, KF1, bad)
+                vc.ensure(f"{tag}.host_header_is_new_authority[{i}]", value)  # was recorded finding KF-C33-1, repaired in /repo (see known_findings.d)
             else:
                 ok = Implies(c, And(*[Implies(before == j, pair_eq(post[j], item)) for j in range(len(post))])) if post else Not(c)
                 vc.ensure(f"{tag}.other_header_untouched[{i}]", ok)
@@ -197,7 +198,7 @@ def check_host_and_authority(vc, tag, data, hdrs, names, vals, scheme, host, por
     else:
         was_empty = len(old_authority) == 0
     vc.ensure(tag + ".empty_authority_stays_empty", Implies(was_empty, a == b""))
-    vc.ensure_kf(tag + ".authority_is_new_authority", Implies(And(Not(was_empty), is_ascii(vc, host)), a == authority_bytes(vc, exp)), KF1, bad)
+    vc.ensure(tag + ".authority_is_new_authority", Implies(And(Not(was_empty), is_ascii(vc, host)), a == authority_bytes(vc, exp)))  # was recorded finding KF-C33-1, repaired in /repo (see known_findings.d)
 
 
 def authority_bytes(vc, s):
@@ -245,7 +246,7 @@ def _mk_edit(kind, scheme):
         u = _get_attr(vc, req, "url")
         vc.ensure("url.readable", u.ok)
         if u.ok:
-            vc.ensure_kf("url.reflects_edit", u.result == scheme.decode() + "://" + authority_spec(vc, scheme.decode(), host, port) + "/", KF1, contains(host, ":"))
+            vc.ensure("url.reflects_edit", u.result == scheme.decode() + "://" + authority_spec(vc, scheme.decode(), host, port) + "/")  # was recorded finding KF-C33-1, repaired in /repo (see known_findings.d)
 
     return s_edit
 
@@ -338,10 +339,10 @@ def s_url_getter(vc):
         return
     if method == b"connect":
         # authority-form (RFC 9112 §3.2.3): host:port, always with the port
-        vc.ensure_kf("connect.authority_form", u.result == If(contains(host, ":"), "[" + host + "]", host) + ":" + itos(vc, port), KF1, contains(host, ":"))
+        vc.ensure("connect.authority_form", u.result == If(And(contains(host, ":"), Not(startswith(host, "["))), "[" + host + "]", host) + ":" + itos(vc, port))  # was recorded finding KF-C33-1, repaired in /repo (see known_findings.d)
         return
     p = "" if isinstance(path, bytes) and path == b"*" else (SStr(path.t) if vc.mode == "sym" else path.decode())
-    vc.ensure_kf("absolute_form", u.result == scheme.decode() + "://" + authority_spec(vc, scheme.decode(), host, port) + p, KF1, contains(host, ":"))
+    vc.ensure("absolute_form", u.result == scheme.decode() + "://" + authority_spec(vc, scheme.decode(), host, port) + p)  # was recorded finding KF-C33-1, repaired in /repo (see known_findings.d)
 
 
 # =================================================================================================================
